@@ -411,7 +411,7 @@ public:
       Rng gr = r.fork(11);
       if (r.chance(1, 4)) { if (r.chance(2, 3)) { text = gen::makeSizedAsm(gr); isX = false; origin = "sizedasm"; } else { text = gen::makeSizedX(gr); origin = "sizedx"; } }
       else if (r.chance(1, 8)) { text = gen::makeAliasAsm(gr); isX = false; origin = "aliasasm"; }
-      else if (r.chance(2, 3)) { text = gen::makeX(gr); origin = "xgen"; } else { text = gen::makeAsm(gr); isX = false; origin = "asmgen"; }
+      else if (r.chance(2, 3)) { bool ex = r.chance(1, 3); text = gen::makeX(gr, ex); origin = ex ? "xgen+decls" : "xgen"; } else { text = gen::makeAsm(gr); isX = false; origin = "asmgen"; }
     } else {
       const Src *s = &g_sources[r.below(g_sources.size())];
       for (int t = 0; s->text.size() > 20000 && t < 4 && !r.chance(1, 30); t++) s = &g_sources[r.below(g_sources.size())];
